@@ -9,9 +9,23 @@ use darklua_core::{Configuration, Options, Resources};
 use serde_json::{json, Value};
 
 pub fn run_text(src: &str, rules: &str, generator: &str) -> Result<String, String> {
+    run_text_opt(src, rules, generator, false)
+}
+
+/// `bundled`: the text is the module `src/m.lua`, required by an entry file whose own text is free of every Luau
+/// construct (and of underscores); the entry is bundled (require mode `path`) before the rules run, so the rules
+/// meet the constructs in nodes that do NOT come from the text of the file being processed.
+pub fn run_text_opt(src: &str, rules: &str, generator: &str, bundled: bool) -> Result<String, String> {
     let resources = Resources::from_memory();
-    resources.write("src/main.lua", src).unwrap();
-    let cfg_text = format!("{{ generator: {}, rules: {} }}", generator, rules);
+    let cfg_text = if bundled {
+        // a module must end with a return of exactly one value
+        resources.write("src/m.lua", &format!("{}\nreturn 0\n", src)).unwrap();
+        resources.write("src/main.lua", "local m = require('./m')\nreturn m\n").unwrap();
+        format!("{{ generator: {}, bundle: {{ require_mode: 'path' }}, rules: {} }}", generator, rules)
+    } else {
+        resources.write("src/main.lua", src).unwrap();
+        format!("{{ generator: {}, rules: {} }}", generator, rules)
+    };
     let config: Configuration = json5::from_str(&cfg_text).map_err(|e| format!("config:{}", e))?;
     let r = guarded(|| {
         darklua_core::process(
